@@ -16,7 +16,8 @@
 From AV Require Import Lib.Base Gen.Consts H1.Chunked H1.PayloadDec H1.Framing
   Client.ClientCodec Client.PlStream Client.Pool Client.Conn Client.RespHead
   Client.RespDecProofs Client.BodyProofs Client.ClientProofs Client.PoolProofs
-  Client.PoolOwnership Client.LeftoverProofs Client.RespHeadLaws Gen.ClientTables Client.ClientTie.
+  Client.PoolOwnership Client.LeftoverProofs Client.RespHeadLaws Gen.ClientTables Client.ClientTie
+  Client.ReqConn Client.PoolWait Client.PoolWaitProofs.
 
 (* 1. Segmentation independence of the response body: two ways of cutting the same bytes into
       reads give the same body, the same ending and the same fate of the connection. *)
@@ -102,6 +103,45 @@ Theorem C17_release_only_when_done : forall (v : variant) (c : ccodec) (k : kind
   exists k' rest body, pbw k (buf ++ concat segs) [] = Ok (k', rest, body, true) /\ b = BOk body.
 Proof. exact release_only_when_done. Qed.
 
+(* 5'. ... and only when the REQUEST was sent persistent.  [exchange_ct .. rc ..] is one whole
+      exchange (head and body) after a request whose head had connection type [rc] (Close for
+      force_close / HTTP/1.0; `encode` installs it in the codec, `decode` takes only a DOWNGRADE
+      from the peer: "do not use peer's keep-alive").  Released to the pool => the request was
+      keep-alive, the response head did not say close / upgrade, and the response either has no
+      body or its body was read and delivered as Ok (then 5. applies: the decoder reached its
+      end).  Every tokenizer, both variants, every segmentation. *)
+Theorem C17_release_requires_persistent_request : forall (hp : bytes -> rhead_res) (maxb : N) (v : variant)
+    (rc : ctype) (is_head read_all : bool) (segs : list bytes) (closed : bool),
+  x_fate (exchange_ct hp maxb v rc is_head read_all segs closed) = FReleased ->
+  rc = CKeepAlive /\
+  exists h c f segs',
+    read_head hp maxb v (length (concat segs)) (codec_after_encode is_head rc) framed0 segs closed
+      = HHead h c f segs' /\
+    keep_alive c = true /\ head_persistent h /\
+    (message_type c = MTNone \/
+     (read_all = true /\ exists body,
+        x_out (exchange_ct hp maxb v rc is_head read_all segs closed) = OResp (rh_status h) (Some (BOk body)))).
+Proof. exact release_needs_persistent_request. Qed.
+
+(* ... hence a request sent non-persistent is the LAST one its connection carries, whatever the
+   peer answers (`connection: keep-alive` included) *)
+Theorem C17_nonpersistent_request_ends_connection : forall (hp : bytes -> rhead_res) (maxb : N) (v : variant)
+    (rc : ctype) (is_head read_all : bool) (more : list (ctype * bool * bool)) (evs : list ev),
+  rc <> CKeepAlive ->
+  length (conn_run_ct hp maxb v ((rc, is_head, read_all) :: more) evs) = 1%nat.
+Proof. exact nonpersistent_request_ends_connection. Qed.
+
+(* non-vacuity: `200 content-length: 2 "ok"` after a keep-alive request is released; after a
+   force_close request answered `connection: keep-alive` it is delivered and NOT released, and the
+   follow-up request does not go to that connection *)
+Example C17_example_request_conn :
+  x_fate (exchange_ct simple_rhead 131072 v_orig CKeepAlive false true [resp_ok2] false) = FReleased /\
+  x_fate (exchange_ct simple_rhead 131072 v_orig CClose false true [resp_ok2_ka] false) = FClosed /\
+  x_out (exchange_ct simple_rhead 131072 v_orig CClose false true [resp_ok2_ka] false) = OResp 200 (Some (BOk [111;107])) /\
+  conn_run_ct simple_rhead 131072 v_orig [(CClose, false, true); (CKeepAlive, false, true)]
+    [EW; ED resp_ok2_ka; EW; ED resp_ok2] = [OResp 200 (Some (BOk [111;107]))].
+Proof. exact req_conn_examples. Qed.
+
 (* ... and a pooled connection is handed out again only if it was idle in the pool, the check
    found nothing to read on it (Live) and it has not expired *)
 Theorem C17_reuse_sound : forall p k now chk p' a c,
@@ -122,6 +162,33 @@ Theorem C17_open_limit_single_authority : forall (c : cfg) (k : key) (ops : list
   single_key k ops ->
   lenN (open_conns (run_pool (pool0 c) ops)) <= c_limit c.
 Proof. exact open_limit_single_authority. Qed.
+
+(* 7'. ... also when requests QUEUE on the limit.  `ConnectionPool::call` awaits the permit FIRST
+       and scans the idle connections AFTER the wake-up (statement order read from the source:
+       POOL_PERMIT_BEFORE_LOOKUP, Gen/ClientTables.v), so a caller that waited finds the connection
+       whose release freed its permit.  Histories = every interleaving of WCall (call polled:
+       proceeds or queues, FIFO) / WWake (first queued caller polled again) / release / close /
+       drop; one authority: in-use + idle sockets <= limit. *)
+Theorem C17_open_limit_with_waiters : forall (c : cfg) (k : key) (ops : list wop),
+  wsingle_key k ops ->
+  lenN (open_conns (wp_pool (run_wpool POOL_PERMIT_BEFORE_LOOKUP (wpool0 c) ops))) <= c_limit c.
+Proof. exact open_limit_waiters. Qed.
+
+(* the order matters: with the scan BEFORE the await (its result carried over the wait) the same
+   kind of history - limit 1, A in flight, B queues, A releases keep-alive, B woken - ends with two
+   sockets; with the order of the tree B reuses A's connection (non-vacuity of 7') *)
+Theorem C17_scan_before_permit_refuted :
+  lenN (open_conns (wp_pool (run_wpool false (wpool0 (mk_cfg 1 15000 75000)) wait_witness))) = 2.
+Proof. exact scan_before_permit_refuted. Qed.
+
+Example C17_example_waiter_reuses :
+  let w := run_wpool POOL_PERMIT_BEFORE_LOOKUP (wpool0 (mk_cfg 1 15000 75000)) wait_witness in
+  open_conns (wp_pool w) = [0] /\ wp_wait w = [] /\ permits_out (wp_pool w) = 1 /\ wsingle_key 0 wait_witness.
+Proof.
+  destruct wait_witness_reuses as (A & B & C). split; [exact A|]. split; [exact B|]. split; [exact C|].
+  intros o k' Hin Hk. unfold wait_witness in Hin. cbn [In] in Hin.
+  repeat (destruct Hin as [<-|Hin]; [cbn in Hk; congruence|]). destruct Hin.
+Qed.
 
 (* Finding F11 (known, documented semantics of `limit`): with two authorities the idle connection
    of the other authority is not counted - limit 1, two sockets. *)
@@ -246,6 +313,11 @@ Theorem C17_decisions_match_source :
      if negb (cc_head c)
      then interp_install (lookup_install (pt_pat_of pt) CLIENT_INSTALL) (pt_kind pt) c conn
      else interp_install CLIENT_INSTALL_HEAD None c conn) /\
+  (* the connection type: `encode` installs the request head's (KeepAlive only if enabled), `decode`
+     takes from the peer's Connection header only a downgrade ("do not use peer's keep-alive") *)
+  (forall is_head rc, cc_conn (codec_after_encode is_head rc) =
+                      interp_enc (lookup_enc (enc_pat_of rc) CLIENT_ENCODE_CONN) true) /\
+  (forall c h pt, cc_conn (codec_of c h pt) = interp_peer CLIENT_PEER_CONN (cc_conn c) (rh_conn_type h)) /\
   (* ClientPayloadCodec: no decode_eof override (F9) and that is [v_orig] *)
   (pc_decode_eof PAYLOAD_DECODE_EOF_OVERRIDE = deof_default pc_decode PEIo /\
    f9_fixed v_orig = PAYLOAD_DECODE_EOF_OVERRIDE) /\
@@ -259,7 +331,8 @@ Theorem C17_decisions_match_source :
   (* release pushes at the back; the permit is taken before the map is looked at *)
   (forall l x, interp_push POOL_RELEASE_PUSH l x = l ++ [x]) /\ POOL_PERMIT_BEFORE_LOOKUP = true.
 Proof.
-  split; [exact tie_framing|]. split; [exact tie_client_install|]. split; [exact tie_decode_eof|].
+  split; [exact tie_framing|]. split; [exact tie_client_install|].
+  split; [exact tie_encode_conn|]. split; [exact tie_peer_conn|]. split; [exact tie_decode_eof|].
   split; [split; apply tie_send_request|]. split; [exact tie_pool_pick|]. split; [exact tie_probe|].
   split; [intros; apply tie_pool_release|apply (tie_pool_release [] (mk_pooled 0 0 0))].
 Qed.
